@@ -1918,6 +1918,10 @@ func (r *Resolvable) walkArray(arr *Array, value *astjson.Value) bool {
 		r.popArrayPathElement()
 		if err {
 			if (arr.Item.NodeKind() == NodeKindObject || arr.Item.NodeKind() == NodeKindArray) && arr.Item.NodeNullable() {
+				if r.render() {
+					// An item that fails without printing anything (unresolvable object) still needs a value.
+					r.printBytes(null)
+				}
 				value.SetArrayItem(r.astjsonArena, i, astjson.NullValue)
 				continue
 			}
